@@ -76,6 +76,22 @@ Section Ports.
   Qed.
 End Ports.
 
+(* ------------------------------------------------------------------ C03's theorems, hypothesis discharged *)
+Lemma concrete_wire_format (H SH : Type) (h_enc : H -> SH) (md : Type) (md_nil : md) (md_is_nil : md -> bool)
+  (h : SerialHugr.hugr (op H) md) :
+  guard_b (c_vports H SH h_enc) (c_sports H SH h_enc) (c_has_order H SH h_enc) h = true ->
+  exists s, SerialHugr.to_serial (c_enc H SH h_enc) (c_ndp H) md_is_nil h = Some s /\
+    rank h (h_root h) = 0 /\ IndexSane s /\
+    s_edges s = map (expected_edge (c_vports H SH h_enc) (c_sports H SH h_enc) h) (h_links h).
+Proof.
+  intros G.
+  destruct (to_serial_total (op H) (sop SH) md (c_enc H SH h_enc) (c_ndp H) md_nil md_is_nil _ _ _ (c_ndp_spec H SH h_enc) h G) as [s Hs].
+  exists s. split; [exact Hs|].
+  destruct (serial_index_sane (op H) (sop SH) md (c_enc H SH h_enc) (c_ndp H) md_nil md_is_nil _ _ _ (c_ndp_spec H SH h_enc) h s G Hs) as [A B].
+  split; [exact A|]. split; [exact B|].
+  exact (serial_port_addressing (op H) (sop SH) md (c_enc H SH h_enc) (c_ndp H) md_nil md_is_nil _ _ _ (c_ndp_spec H SH h_enc) h s G Hs).
+Qed.
+
 (* ------------------------------------------------------------------ the operation-level facts from C05 *)
 Section Facts.
   Variables H SH : Type.
